@@ -4,7 +4,7 @@ LEVEL = "other"
 
 def check(rep, tier):
     from contracts import guards, core_rules, tracer_trace, diffops
-    guards.run(rep, tier)
-    core_rules.run(rep, tier)
-    tracer_trace.run(rep, tier, only=("NB-typeerror",))
-    diffops.run_ops(rep, tier)
+    rep.run(guards.run, rep, tier)
+    rep.run(core_rules.run, rep, tier)
+    rep.run(tracer_trace.run, rep, tier, only=("NB-typeerror",))
+    rep.run(diffops.run_ops, rep, tier)
